@@ -1,10 +1,14 @@
 use crate::engine::Ctx;
 
 pub mod c02;
+pub mod c03;
+pub mod c08;
 
 pub fn run(id: &str, ctx: &mut Ctx) -> bool {
     match id {
         "C02" => c02::run(ctx),
+        "C03" => c03::run(ctx),
+        "C08" => c08::run(ctx),
         _ => return false,
     }
     true
